@@ -78,7 +78,7 @@ def check_worker(ctx, clsname, stream):
             return [("val", NONE)]
         return None
 
-    dom = ObjectDomain(ctx.classes, attrs={"self": ("self",)}, results={"sys.exc_info": [EXCINFO]}, oracle=oracle,
+    dom = ObjectDomain(ctx.classes, attrs={"self": ("self",)}, oracle=oracle,
                                ctors={"testtools.ErrorHolder", "ErrorHolder"}, log_cap=16)
     res = effects.run(ctx, dom, worker, cls, argv, state=State(), depth=4)
     Qn = f"{TESTSUITE}:{clsname}._run_test"
@@ -112,7 +112,7 @@ def check_worker(ctx, clsname, stream):
                 first = obj[2][0] if obj[2] else dict(obj[3]).get("test_id")
                 text = first[1] if isinstance(first, tuple) and first[:1] == ("const",) else (first[1][1] if isinstance(first, tuple) and first[:1] == ("concat",) and first[1][:1] == ("const",) else "")
                 err = dict(obj[3]).get("error", obj[2][1] if len(obj[2]) > 1 else None)
-                if not (isinstance(text, str) and text.startswith("broken-runner")) or err != EXCINFO:
+                if not (isinstance(text, str) and text.startswith("broken-runner")) or err != effects.exc_info_of(CRASH):
                     reported.add(f"the crash is reported as ErrorHolder({first!r}, error={err!r}) instead of ErrorHolder('broken-runner...', error=sys.exc_info())")
                 if h[1][1:] != (PR,):
                     same_result.add("the broken-runner holder is not run against the worker's own result")
